@@ -1,1 +1,153 @@
-// harness module (child of the mirrored module)
+// Contracts for contracts/interchain-token-service/src/abi.rs.
+//
+// Two things live here:
+//  1. the *contract stubs* of the codec used by the service-level harnesses (C04, C05, C18): the
+//     codec is an injective function of the message (decode∘encode = id, canonical encodings
+//     only) — that is what C10 states about it; what C10 can decide of it directly is in part 2.
+//  2. the C10 harnesses on the codec's own helper functions (full domain) and bounded shapes.
+use super::*;
+use crate::types::{DeployInterchainToken as TDeploy, InterchainTransfer as TTransfer};
+use soroban_sdk::shim::{self, Wordy, Words};
+
+// ------------------------------------------------------------------------------------------------
+// 1. contract stubs
+// ------------------------------------------------------------------------------------------------
+pub fn message_words(m: &Message, w: &mut Words) {
+    match m {
+        Message::InterchainTransfer(t) => {
+            w.push(0);
+            t.token_id.to_words(w);
+            t.source_address.to_words(w);
+            t.destination_address.to_words(w);
+            t.amount.to_words(w);
+            t.data.to_words(w);
+        }
+        Message::DeployInterchainToken(d) => {
+            w.push(1);
+            d.token_id.to_words(w);
+            d.name.to_words(w);
+            d.symbol.to_words(w);
+            d.decimals.to_words(w);
+            d.minter.to_words(w);
+        }
+    }
+}
+pub fn words_of_message(m: &Message) -> Words {
+    let mut w = Words::new();
+    message_words(m, &mut w);
+    w.pad_to(11);
+    w
+}
+pub fn words_of_hub(h: &HubMessage) -> Words {
+    let mut w = Words::new();
+    match h {
+        HubMessage::SendToHub { destination_chain, message } => {
+            w.push(3);
+            destination_chain.to_words(&mut w);
+            message_words(message, &mut w);
+        }
+        HubMessage::ReceiveFromHub { source_chain, message } => {
+            w.push(4);
+            source_chain.to_words(&mut w);
+            message_words(message, &mut w);
+        }
+    }
+    w.pad_to(13);
+    w
+}
+/// the canonical ABI encoding of a hub message, as an abstract byte string: an injective function of
+/// the message (two different messages never share an encoding)
+pub fn spec_encoding(h: &HubMessage) -> Bytes {
+    let mut w = words_of_hub(h);
+    w.push(0xAB1_C0DEC);
+    Bytes { id: shim::intern(w) }
+}
+
+pub static mut ENCODED: Option<Words> = None;
+/// contract of `HubMessage::abi_encode`: Ok(canonical encoding) — or Err(InvalidUtf8) for a chain /
+/// name / symbol that is not UTF-8; a negative amount traps.
+pub fn hub_encode_contract(h: HubMessage, _env: &Env) -> Result<Bytes, ContractError> {
+    unsafe { ENCODED = Some(words_of_hub(&h)) };
+    if let HubMessage::SendToHub { message: Message::InterchainTransfer(t), .. } | HubMessage::ReceiveFromHub { message: Message::InterchainTransfer(t), .. } = &h {
+        if t.amount < 0 {
+            shim::trap();
+        }
+    }
+    if kani::any() {
+        Ok(spec_encoding(&h))
+    } else {
+        Err(ContractError::InvalidUtf8)
+    }
+}
+
+pub fn symbolic_message() -> Message {
+    if kani::any() {
+        Message::InterchainTransfer(TTransfer {
+            token_id: BytesN::symbolic(),
+            source_address: Bytes::symbolic(),
+            destination_address: Bytes::symbolic(),
+            amount: kani::any(),
+            data: Option::<Bytes>::symbolic(),
+        })
+    } else {
+        Message::DeployInterchainToken(TDeploy {
+            token_id: BytesN::symbolic(),
+            name: String::symbolic(),
+            symbol: String::symbolic(),
+            decimals: kani::any(),
+            minter: Option::<Bytes>::symbolic(),
+        })
+    }
+}
+pub fn any_error() -> ContractError {
+    <ContractError as Wordy>::symbolic()
+}
+
+pub static mut TYPE_OF: Option<(u64, u8)> = None;
+pub static mut DECODED: Option<HubMessage> = None;
+/// contract of `get_message_type`: an uninterpreted function of the payload (its first word)
+pub fn get_message_type_contract(_payload: &[u8]) -> Result<MessageType, ContractError> {
+    let id = shim::take_abstract_content();
+    let t: u8 = kani::any();
+    unsafe { TYPE_OF = Some((id, t)) };
+    match t {
+        0 => Ok(MessageType::InterchainTransfer),
+        1 => Ok(MessageType::DeployInterchainToken),
+        2 => Ok(MessageType::DeployTokenManager),
+        3 => Ok(MessageType::SendToHub),
+        4 => Ok(MessageType::ReceiveFromHub),
+        5 => Err(ContractError::InsufficientMessageLength),
+        _ => Err(ContractError::InvalidMessageType),
+    }
+}
+/// contract of `HubMessage::abi_decode` (A-ALLOY + C10): `Ok(m)` only if the payload is the canonical
+/// encoding of `m` (so re-encoding reproduces the input), amounts are in 0..=i128::MAX, the outer tag
+/// is the one `get_message_type` reports for this payload; everything else is an `Err`.
+pub fn hub_decode_contract(_env: &Env, payload: &Bytes) -> Result<HubMessage, ContractError> {
+    if !kani::any::<bool>() {
+        return Err(any_error());
+    }
+    let inner = symbolic_message();
+    if let Message::InterchainTransfer(t) = &inner {
+        kani::assume(t.amount >= 0);
+        // an empty optional byte field reads back as absent
+        kani::assume(!matches!(&t.data, Some(d) if d.is_empty()));
+    }
+    if let Message::DeployInterchainToken(d) = &inner {
+        kani::assume(!matches!(&d.minter, Some(m) if m.is_empty()));
+    }
+    let chain = String::symbolic();
+    let m = if kani::any() {
+        HubMessage::SendToHub { destination_chain: chain, message: inner }
+    } else {
+        HubMessage::ReceiveFromHub { source_chain: chain, message: inner }
+    };
+    kani::assume(spec_encoding(&m).id == payload.id);
+    if let Some((id, t)) = unsafe { TYPE_OF } {
+        if id == payload.id {
+            kani::assume(t == if matches!(m, HubMessage::SendToHub { .. }) { 3 } else { 4 });
+        }
+    }
+    unsafe { DECODED = Some(m.clone()) };
+    Ok(m)
+}
